@@ -4,6 +4,7 @@
   Model: `Sync.Machine` (sequential; the gossip-handler × sync-loop interleavings are not modelled).
 -/
 import GoHeader.Sync.Machine
+import GoHeader.Sync.Trigger
 namespace GoHeader.C07
 open GoHeader GoHeader.Mach
 
@@ -144,5 +145,131 @@ theorem c07_resume_completes (s : SM) (hh : Honest s.script) (hasc : s.pending.P
 example : (({ head := 10, script := [.pfx 3, .err, .pfx 1] } : SM).gossip (.valid 40)).1.head = 13 := by decide
 example : ((({ head := 10, script := [.pfx 3, .err, .pfx 1] } : SM).gossip (.valid 40)).1.gossip (.valid 41)).1
     = { head := 41, pending := [], err := false, script := [] } := by decide
+
+end GoHeader.C07
+
+/-! ### the hand-over between `setLocalHead` and the sync loop, for ALL interleavings -/
+namespace GoHeader.C07
+open GoHeader.SyncTrigger
+
+/-- every pending head above the store head is still going to be looked at -/
+def Inv (s : St) : Prop :=
+  ∀ x ∈ s.pend, x > s.sh →
+    s.trig = true ∨ .fire ∈ s.gs ∨ s.l = .read ∨ (∃ to, (s.l = .sync to ∨ s.l = .clean to) ∧ x ≤ to)
+
+theorem le_maxOf {x : Nat} {xs : List Nat} (h : x ∈ xs) : x ≤ maxOf xs := by
+  induction xs with
+  | nil => cases h
+  | cons y ys ih =>
+    simp [maxOf] at *
+    rcases h with rfl | h
+    · omega
+    · have := ih h; omega
+
+theorem mem_set_fire {gs : List GPc} {i : Nat} {p : GPc} (h : .fire ∈ gs) (hi : gs[i]? = some p) (hp : p ≠ .fire) (q : GPc) :
+    .fire ∈ gs.set i q := by
+  rw [List.mem_iff_getElem] at h
+  obtain ⟨j, hj, hjv⟩ := h
+  rw [List.mem_iff_getElem]
+  refine ⟨j, by simpa using hj, ?_⟩
+  by_cases e : i = j
+  · subst e
+    have : gs[i]? = some GPc.fire := by rw [List.getElem?_eq_getElem hj, hjv]
+    rw [this] at hi; cases hi; exact absurd rfl hp
+  · simp [e, hjv]
+
+theorem inv_init (sh n : Nat) : Inv (init sh n) := by
+  intro x hx; simp [init] at hx
+
+theorem inv_stepG (s : St) (i x : Nat) (h : Inv s) : Inv (stepG s i x) := by
+  unfold stepG
+  split
+  · exact h
+  · rename_i hi
+    split
+    · intro y hy hgt
+      rcases h y hy hgt with a | a | a | a
+      · exact Or.inl a
+      · exact Or.inr (Or.inl (mem_set_fire a hi (by simp) _))
+      · exact Or.inr (Or.inr (Or.inl a))
+      · exact Or.inr (Or.inr (Or.inr a))
+    · exact h
+  · rename_i y hi
+    intro z hz hgt
+    refine Or.inr (Or.inl ?_)
+    have hlt : i < s.gs.length := by
+      rcases Nat.lt_or_ge i s.gs.length with a | a
+      · exact a
+      · rw [List.getElem?_eq_none a] at hi; cases hi
+    exact List.mem_iff_getElem.mpr ⟨i, by simpa using hlt, by simp⟩
+  · intro y hy hgt
+    exact Or.inl rfl
+
+theorem inv_stepL (s : St) (h : Inv s) : Inv (stepL s) := by
+  unfold stepL
+  split
+  · split
+    · intro x hx hgt; exact Or.inr (Or.inr (Or.inl rfl))
+    · exact h
+  · split
+    · intro x hx hgt
+      exact Or.inr (Or.inr (Or.inr ⟨_, Or.inl rfl, le_maxOf hx⟩))
+    · rename_i hm
+      intro x hx hgt
+      have h1 : x ≤ maxOf s.pend := le_maxOf hx
+      have h2 : s.sh < x := hgt
+      omega
+  · rename_i to hl
+    intro x hx hgt
+    have hgt' : x > s.sh := by simp at hgt; omega
+    rcases h x hx hgt' with a | a | a | ⟨t, a, b⟩
+    · exact Or.inl a
+    · exact Or.inr (Or.inl a)
+    · rw [hl] at a; cases a
+    · rw [hl] at a
+      rcases a with a | a
+      · cases a; simp at hgt; omega
+      · cases a
+  · rename_i to hl
+    intro x hx hgt
+    simp at hx
+    rcases h x hx.1 hgt with a | a | a | ⟨t, a, b⟩
+    · exact Or.inl a
+    · exact Or.inr (Or.inl a)
+    · rw [hl] at a; cases a
+    · rw [hl] at a
+      rcases a with a | a
+      · cases a
+      · cases a; omega
+
+theorem inv_run (sh n : Nat) (evs : List Ev) : Inv (run sh n evs) := by
+  unfold run
+  suffices ∀ s, Inv s → Inv (evs.foldl step s) from this _ (inv_init sh n)
+  induction evs with
+  | nil => intro s h; exact h
+  | cons e es ih =>
+    intro s h
+    apply ih
+    cases e with
+    | g i x => exact inv_stepG s i x h
+    | l => exact inv_stepL s h
+
+/-- **no lost trigger**: in every reachable QUIESCENT state (loop idle, channel empty, no setter between its
+    `pending.Add` and its `wantSync`) nothing above the store head is pending: every head that was handed to
+    `setLocalHead` — also while a sync was running — has been synced. -/
+theorem c07_no_lost_trigger (sh n : Nat) (evs : List Ev)
+    (hl : (run sh n evs).l = .idle) (ht : (run sh n evs).trig = false) (hg : .fire ∉ (run sh n evs).gs) :
+    ∀ x ∈ (run sh n evs).pend, x ≤ (run sh n evs).sh := by
+  intro x hx
+  rcases Nat.lt_or_ge (run sh n evs).sh x with hgt | hle
+  · rcases inv_run sh n evs x hx hgt with a | a | a | ⟨t, a, _⟩
+    · rw [ht] at a; cases a
+    · exact absurd a hg
+    · rw [hl] at a; cases a
+    · rw [hl] at a; rcases a with a | a <;> cases a
+  · exact hle
+
+/-- non-vacuity: two heads, the second learned while the first sync is running; quiescent at the end, store at 25 -/
+example : (run 10 1 [.g 0 20, .g 0 20, .g 0 20, .l, .l, .g 0 25, .g 0 25, .l, .g 0 25, .l, .l, .l, .l, .l]).sh = 25 := by decide
 
 end GoHeader.C07
